@@ -649,10 +649,21 @@ func main() {
 		fields := o.fn(r, st)
 		fmt.Fprintf(w, "%d\t%s\n", i, strings.Join(fields, "\t"))
 	}
+	// self-touching / revisiting lines for Simplify (revisit.go): a stream of its own, so that the
+	// cases above do not depend on it
+	rroot := lib.NewRng(a.Seed ^ 0x7e7151717)
+	for i, k := 0, revisitCount(a.N); i < k; i++ {
+		r := rroot.Fork()
+		st.Ops["SIMP"]++
+		fmt.Fprintf(w, "r%d\t%s\n", i, strings.Join(caseRevisit(r, st), "\t"))
+	}
 	js, _ := json.Marshal(map[string]interface{}{"ops": st.Ops, "kinds": st.Kinds, "ctypes": st.CTs,
 		"lattice": st.Lattice, "general_position_floats": st.Floats, "with_repeated_vertices": st.Dups,
 		"closed_lines": st.Closed, "polygons_with_hole": st.Holes, "t_shaped_polygons_with_hole_in_stem": st.Bumps, "concave_shell_fat_hole": st.Gate, "simplify_error_search_hits": st.GateHits, "sibling_collision_candidates": st.Sibling, "diagonal_box_geometries": st.Diag, "long_sequences": st.Long, "sibling_collision_hits": st.SibHits, "rejected_candidates": st.Rejected,
-		"empty_members": st.EmptyMem})
+		"empty_members": st.EmptyMem,
+		"revisiting_lines": map[string]interface{}{"cases": revStats.Cases, "shapes": revStats.Shapes, "thresholds": revStats.Thresholds,
+			"wrappers": revStats.Wrappers, "lines_with_repeated_junction_vertices": revStats.JunctReps, "lines_in_general_position": revStats.Jittered,
+			"lines_ending_on_an_earlier_interior_vertex": revStats.EndsOnInt, "lines_starting_on_a_later_interior_vertex": revStats.StartsOnIn}})
 	fmt.Fprintf(w, "#GEN\t%s\n", js)
 }
 
@@ -684,5 +695,6 @@ func corpus() [][]string {
 	interp("LINESTRING Z(0 0 5,0 0 7,0 0 9,3 4 1)", 0)
 	interp("LINESTRING(0 0,3 4,3 4,6 8)", 0.5)
 	interp("LINESTRING(1 1,4 5)", 1)
+	out = append(out, revisitCorpus()...)
 	return out
 }
